@@ -112,6 +112,16 @@ Fixpoint chk_s (st : stmt val) (O : list name) : bool :=
   end
 with chk_b (b : block val) (O : list name) : bool :=
   match b with BNil _ => true | BCons _ st r => chk_s st (live_b val r O) && chk_b r O end.
+(* the contexts of all control statements, in the order control_flow.py visits them (children first) *)
+Fixpoint contexts_s (st : stmt val) (O : list name) : list ctx :=
+  match st with
+  | SAtom _ _ _ _ => []
+  | SIf _ _ _ b1 b2 => contexts_b b1 O ++ contexts_b b2 O ++ [ctx_of val nl gl st O]
+  | SWhile _ Lh _ _ body => contexts_b body Lh ++ [ctx_of val nl gl st O]
+  | SFor _ Lh _ _ _ body => contexts_b body Lh ++ [ctx_of val nl gl st O]
+  end
+with contexts_b (b : block val) (O : list name) : list ctx :=
+  match b with BNil _ => [] | BCons _ st r => contexts_s st (live_b val r O) ++ contexts_b r O end.
 End Exec.
 
 (* ------------------------------------------------------------------ the concrete language *)
@@ -160,13 +170,29 @@ with compile_block (l : cblock) : block N :=
    under the tracing backend *)
 Definition init_store (a b c : N) : store N :=
   fun z => if String.eqb z "a" then a else if String.eqb z "b" then b else if String.eqb z "c" then c else 0.
-Definition pcase_ok (fuel : nat) (a b c : N) (prog : cblock) (ret : list name) (expect : list N) : bool :=
-  let blk := compile_block prog in
-  chk_b N blk ret &&
-  match frun_b N [] [] 0 fuel blk ret (init_store a b c), irun_b N fuel blk (init_store a b c) with
-  | Some r, Some ri =>
-      forallb (fun p => N.eqb (fst p) (snd p)) (combine (map r ret) expect)
-      && forallb (fun p => N.eqb (fst p) (snd p)) (combine (map ri ret) expect)
-      && Nat.eqb (List.length ret) (List.length expect)
+Definition same_set (a b : list name) : bool := subset a b && subset b a.
+Fixpoint ctxs_match (cs : list ctx) (real : list (list name * list name * list name)) : bool :=
+  match cs, real with
+  | [], [] => true
+  | c :: cr, (m, li, lo) :: rr =>
+      same_set (modified c) m && same_set (live_in c) li && same_set (live_out c) lo && ctxs_match cr rr
   | _, _ => false
   end.
+(* 0 = ok; 1 = the loop annotations are not closed; 2 = an interpreter ran out of fuel; 3 = the tracing interpreter returns
+   other values than the real pipeline; 4 = the native interpreter does; 5 = the contexts (modified, live-in, live-out) of the
+   control statements differ from the ones the real _get_block_vars was applied to *)
+Definition pcase_code (fuel : nat) (a b c : N) (prog : cblock) (ret : list name) (expect : list N)
+           (real : list (list name * list name * list name)) : nat :=
+  let blk := compile_block prog in
+  let eqs (r : store N) := forallb (fun p => N.eqb (fst p) (snd p)) (combine (map r ret) expect)
+                           && Nat.eqb (List.length ret) (List.length expect) in
+  if negb (chk_b N blk ret) then 1 else
+  match frun_b N [] [] 0 fuel blk ret (init_store a b c), irun_b N fuel blk (init_store a b c) with
+  | Some r, Some ri =>
+      if negb (eqs r) then 3 else if negb (eqs ri) then 4 else
+      if negb (ctxs_match (contexts_b N [] [] blk ret) real) then 5 else 0
+  | _, _ => 2
+  end.
+Definition pcase_ok (fuel : nat) (a b c : N) (prog : cblock) (ret : list name) (expect : list N)
+           (real : list (list name * list name * list name)) : bool :=
+  Nat.eqb (pcase_code fuel a b c prog ret expect real) 0.
